@@ -164,6 +164,11 @@ def run_case(ctx, name, obj, cfg):
             rank = dict(debug=10, info=20, warning=30, error=40)
             mlogs = [l.upper() for l in m["logs"] if rank[l] >= level]
             ilogs = [lvl for lvl, _ in res["logs"]]
+            if cfg.get("before"):
+                # logging.basicConfig takes effect once per process: after an earlier call the level below WARNING is whatever that
+                # call chose (this is so on the pinned tree and C17 says nothing about it); records from WARNING up are compared
+                mlogs = [l.upper() for l in m["logs"] if rank[l] >= 30]
+                ilogs = [lvl for lvl in ilogs if rank.get(lvl.lower(), 0) >= 30]
             if mlogs != ilogs:
                 out["mism"].append(dict(what=f"log records differ from the model's: {ilogs} vs {mlogs}", **rep))
             if (res["outcome"][0] == "ok") != (m["sig"] in ("next", "ret")):
